@@ -178,9 +178,14 @@ func (b memBucket) Put(key, value []byte) error { return b.db.put(b.name, key, v
 func (b memBucket) Delete(key []byte) error     { return b.db.delete(b.name, key) }
 func (b memBucket) Iter() iter.Seq2[[]byte, []byte] {
 	return func(yield func([]byte, []byte) bool) {
+		for key, val := range b.db.puts[b.name] {
+			if !yield([]byte(key), val) {
+				return
+			}
+		}
 		for key, val := range b.db.buckets[b.name] {
-			if pval, ok := b.db.puts[b.name][string(key)]; ok {
-				val = pval
+			if _, ok := b.db.puts[b.name][string(key)]; ok {
+				continue
 			} else if _, ok := b.db.dels[b.name][string(key)]; ok {
 				continue
 			}
